@@ -242,6 +242,16 @@ def reader_next2(m, r, *args):
 BUILTIN_METHODS[('Reader', 'read_event_into')] = reader_next2
 BUILTIN_METHODS[('Reader', 'read_event')] = reader_next2
 
+def number_positions(entries, tagp, pre):
+    """Reader::buffer_position() after each event: symbolic 64-bit offsets, strictly increasing within a document (appended to `pre`)"""
+    prev = None
+    for i, e in enumerate(entries):
+        p = z3.BitVec('%s_pos%d' % (tagp, i), 64)
+        pre.append(z3.ULT(prev, p) if prev is not None else z3.UGT(p, 0))
+        pre.append(z3.ULT(p, z3.BitVecVal(1 << 40, 64)))
+        e.pos = p; prev = p
+    return entries
+
 def doc_script(doc_items, tagp='d'):
     """a document = list of top-level items (Noise/Text/Node)"""
     out = []
